@@ -557,6 +557,46 @@ func runC12(r *ev.Run) {
 	}
 	r.SetDeadline(20 * 60 * 1e9)
 	r.Set("rule", "case = one structurally generated wire value (operations of all ten kinds x presence patterns of optional members, conditions, mutations, sets, maps, UUIDs, rows, table updates in both formats, monitor requests with every select-flag presence pattern, monitor_cond_since replies, results and errors) or one schema column (every base-type feature present/absent x min/max/unlimited x map values x ephemeral/mutable); non-trivial = value with at least one optional member present or one nested collection")
+	// operation results <-> Go errors: every error string of RFC 7047 5.? that has its own Go type maps to that type and back
+	// to the same (error, details); any other error string keeps its name in front of its details
+	known := []string{"referential integrity violation", "constraint violation", "resources exhausted", "I/O error", "duplicate uuid-name", "domain error", "range error", "timed out", "not supported", "aborted", "not owner"}
+	for _, name := range append(append([]string{}, known...), "syntax error", "unknown database", "some error a newer server invented") {
+		for _, details := range []string{"", "some details", "details: with a colon"} {
+			r.Add("evaluations", 1)
+			res := ovsdb.OperationResult{Error: name, Details: details}
+			op := ovsdb.Operation{Op: "insert", Table: "T"}
+			cse := map[string]interface{}{"class": "error-mapping", "result": res}
+			isKnown := false
+			for _, k := range known {
+				isKnown = isKnown || k == name
+			}
+			for _, extra := range []bool{false, true} {
+				var got error
+				if extra {
+					// the additional element of a commit-time failure
+					_, err := ovsdb.CheckOperationResults([]ovsdb.OperationResult{{}, res}, []ovsdb.Operation{op})
+					got = err
+				} else {
+					errs, _ := ovsdb.CheckOperationResults([]ovsdb.OperationResult{res}, []ovsdb.Operation{op})
+					if len(errs) == 1 {
+						got = errs[0]
+					}
+				}
+				if got == nil {
+					r.Violation("c12.error-mapping.lost", fmt.Sprintf("result %+v (extra element=%v) is not reported as an error", res, extra), cse)
+					continue
+				}
+				back := ovsdb.ResultFromError(got)
+				if isKnown {
+					if back.Error != name || back.Details != details {
+						r.Violation("c12.error-mapping.known", fmt.Sprintf("result %+v -> %T -> result {error:%q details:%q}", res, got, back.Error, back.Details), cse)
+					}
+				} else if msg := got.Error(); !strings.HasPrefix(msg, name) || !strings.Contains(msg[len(name):], details) || !strings.HasPrefix(back.Error, name) {
+					r.Violation("c12.error-mapping.generic", fmt.Sprintf("result %+v -> %T reading %q -> result {error:%q details:%q}: the error name must come first, followed by the details", res, got, msg, back.Error, back.Details), cse)
+				}
+			}
+		}
+	}
 	cases := wireCases(level)
 	for i, c := range cases {
 		r.Add("evaluations", 1)
